@@ -5,7 +5,7 @@
    refused - and every reachable serializer state has a chunk size >= 1.  "Accepted values yield a working codec" is C01/C07.
    Bounded memory of the output: a packet is at most 17 * payload + 16 bytes, a chunk-size announcement at most 84 (SerSizeProofs.v). *)
 From RML Require Import Model.Base Model.Chunk Model.ChunkSer Model.ChunkDe Model.SessionCommon Model.Server Model.Amf0 Spec.Amf0Wire
-  Proofs.ChunkSerProofs Proofs.ConfigProofs Proofs.Amf0Proofs Proofs.SerSizeProofs.
+  Proofs.ChunkSerProofs Proofs.ConfigProofs Proofs.Amf0Proofs Proofs.SerSizeProofs Proofs.Amf0Size.
 Local Open Scope N_scope.
 
 Theorem C19_ser_chunk_size : forall st n ts, 1 <= s_max st ->
@@ -52,6 +52,13 @@ Theorem C19_set_chunk_size_output_bounded : forall (st : ChunkSer.sstate) n ts b
 Proof. exact set_max_chunk_size_size. Qed.
 
 
+(* the size of what the AMF0 encoder writes is a function of the value alone *)
+Theorem C19_amf0_encoded_size : forall v b, encode_value v = Ok b -> lenN b = vsize v.
+Proof. exact encode_value_size. Qed.
+
+Theorem C19_amf0_serialized_size : forall vs b, Amf0.serialize vs = Ok b -> lenN b = vssize vs.
+Proof. exact serialize_size_exact. Qed.
+
 Print Assumptions C19_ser_chunk_size.
 Print Assumptions C19_de_chunk_size.
 Print Assumptions C19_payload.
@@ -62,3 +69,5 @@ Print Assumptions C19_server_config_chunk_refused.
 Print Assumptions C19_amf0_refused.
 Print Assumptions C19_serialize_output_bounded.
 Print Assumptions C19_set_chunk_size_output_bounded.
+Print Assumptions C19_amf0_encoded_size.
+Print Assumptions C19_amf0_serialized_size.
